@@ -240,6 +240,9 @@ class Exec:
         return self.lookup_global(st, name, modname)
 
     def lookup_global(self, st, name, modname, seen=None):
+        ov = self.hooks.get("global_overrides")
+        if ov and (modname, name) in ov:
+            return ov[(modname, name)]  # a module-level setting made symbolic by the obligation (e.g. the tolerances)
         mod = self.P.modules.get(modname)
         if mod is not None:
             if name in mod.classes:
